@@ -2,6 +2,7 @@
 from __future__ import annotations
 
 import ast
+import itertools
 import re
 
 import sympy as sp
@@ -155,6 +156,18 @@ def run(ctx):
         mass1 = mass0 + q[0] * portion * (mass_sym("D") - mass_sym("H1"))
         eq(ctx, "R3", f"replace ({label}): density scales with the mass (cell volume kept)",
            I.getattr(r, "density"), d * mass1 / mass0, s_sub)
+    # substitution by a different element, an ion and an isotope of another element: mass scaling, not natural density
+    for kind in ("element", "ion_element", "isotope"):
+        tgt = A[kind]
+        mt = I.getattr(tgt, "mass")
+        r = I.call(I.getattr(f, "replace"), [O, tgt], {"portion": p})
+        got_atoms = I.getattr(r, "atoms")
+        if isinstance(got_atoms, Phi):
+            got_atoms = got_atoms.b
+        dict_eq(ctx, "R3", f"replace (O by {kind}, partial): other counts kept, source moved to target", got_atoms,
+                {H1: q[0], O: q[1] * (1 - p), D: q[2], tgt: q[1] * p}, s_sub)
+        eq(ctx, "R3", f"replace (O by {kind}, partial): density scales with the mass (cell volume kept)",
+           I.getattr(r, "density"), d * (mass0 + q[1] * p * (mt - mO)) / mass0, s_sub)
     r = I.call(I.getattr(f, "replace"), [H, D], {})
     dict_eq(ctx, "R3", "replace of an absent atom changes nothing", I.getattr(r, "atoms"), {H1: q[0], O: q[1], D: q[2]}, s_sub)
     eq(ctx, "R3", "replace of an absent atom keeps the density", I.getattr(r, "density"), d, s_sub)
@@ -163,7 +176,7 @@ def run(ctx):
     ctx.check(rr is None and I.getattr(I.call(I.getattr(fn, "replace"), [H1, D], {}), "density") is None, "R3",
               "replace on a formula of unknown density leaves it unknown",
               f"replace raised {rr}" if rr else "density became known", s_sub)
-    ctx.floor("R3", 7)
+    ctx.floor("R3", 13)
 
     # ---- R4 volume -----------------------------------------------------------
     s_vol = fsite(ctx, "formulas.Formula.volume")
@@ -212,13 +225,21 @@ def run(ctx):
        I.call(cv, [a_, b_, c_, al], {}), cell(a_, b_, c_, al, al, al), s_cv)
     eq(ctx, "R4", "cell_volume(a, c=c, gamma=g): alpha, beta default to 90 degrees",
        I.call(cv, [a_], {"c": c_, "gamma": ga}), cell(a_, a_, c_, 90, 90, ga), s_cv)
+    # documented defaults for every subset of the given angles: alpha -> 90, beta -> alpha, gamma -> alpha
+    for given in itertools.product((False, True), repeat=3):
+        kw = {n: v for n, v, g in zip(("alpha", "beta", "gamma"), (al, be, ga), given) if g}
+        x = al if given[0] else 90
+        y = be if given[1] else x
+        z = ga if given[2] else x
+        eq(ctx, "R4", f"cell_volume defaults with {sorted(kw) or 'no angle'} given (alpha->90, beta->alpha, gamma->alpha)",
+           I.call(cv, [a_, b_, c_], dict(kw)), cell(a_, b_, c_, x, y, z), s_cv)
     rr = raises(lambda: I.call(cv, [], {}))
     ctx.check(rr == "TypeError", "R4", "cell_volume without a raises TypeError", f"got {rr}", s_cv)
     eq(ctx, "R4", "Formula.volume(a, b, c, alpha, beta, gamma) = cell volume * 1e-24",
        I.call(I.getattr(f, "volume"), [a_, b_, c_, al, be, ga], {}), cell(a_, b_, c_, al, be, ga) * sp.Rational(1, 10 ** 24), s_vol)
     eq(ctx, "R4", "Formula.volume(a=a, c=c) keyword lattice form",
        I.call(I.getattr(f, "volume"), [], {"a": a_, "c": c_}), a_ * a_ * c_ * sp.Rational(1, 10 ** 24), s_vol)
-    ctx.floor("R4", 20)
+    ctx.floor("R4", 28)
     ctx.unit("functions_inlined", len(set(I.calls)))
     ctx.unit("atom_kinds", len(w.KINDS))
     ctx.assume("token lists handed to convert_compound/convert_mixture have the shape [pairs..., None] | "
